@@ -58,6 +58,16 @@ fn main() {
         return;
     }
 
+    if cmd == "gen14" {
+        // development aid: the definitions the C14 check would generate
+        let seed: u64 = args.get(2).and_then(|s| s.parse().ok()).unwrap_or(1);
+        let n: usize = args.get(3).and_then(|s| s.parse().ok()).unwrap_or(1);
+        for i in 0..n {
+            println!("=== definition {i}\n{}", props::c14::gen_source(seed, i));
+        }
+        return;
+    }
+
     if cmd == "dump" {
         // development aid: print the SSA form of one definition with the facts attached
         use program_structure::cfg::IntoCfg;
